@@ -309,6 +309,9 @@ class C15(Prop):
                 ops = [dict(x) for x in case['ops']]
                 ops[i] = dict(ops[i], op='savecrash', k=k)
                 out.append(dict(case, ops=ops))
+            ops = [dict(x) for x in case['ops']]
+            ops[i] = dict(ops[i], op='savecrash', k=1, refused=True)
+            out.append(dict(case, ops=ops))
             for reject in (1, 2):
                 # the store refuses the put of the full object (once / also on a retry): nothing of this save may be visible
                 ops = [dict(x) for x in case['ops']]
@@ -325,6 +328,8 @@ class C15(Prop):
                 o['k'] = rng.choice([0, 1, 2])
                 if o['k'] == 0:
                     o['reject'] = rng.choice([1, 2])
+                elif o['k'] == 1 and rng.random() < 0.5:
+                    o['refused'] = True
         return dict(case, ops=ops)
 
     # ------------------------------------------------------------------------------------------------------
@@ -390,6 +395,10 @@ class C15(Prop):
                     if kind == 'savecrash':
                         if op['k'] == 0:
                             st.reject_full = op.get('reject', 1)      # the store refuses the put(s) of the full object
+                        elif op.get('refused'):
+                            # the store answers the (k+1)-th put of this save with an error: for the bucket the same thing as
+                            # a crash right after mutation k - but the saving code's own error handling gets to run
+                            st.reject_put_no = op['k'] + 1
                         else:
                             st.crash_after = op['k']
                     try:
@@ -398,6 +407,7 @@ class C15(Prop):
                     finally:
                         st.crash_after = None
                         st.reject_full = 0
+                        st.reject_put_no = 0
                 elif kind == 'get':
                     c.get_recording(op['id'])
                     res = 'found'
